@@ -1,0 +1,32 @@
+//go:build verif
+
+// Contracts for the deductive verifier in /verif (govc). This file contains no code: with the
+// build tag off it is not part of the package, with it on it adds nothing to the build.
+// Vocabulary: see app/antedl/duallane/verif_contracts.go. (Generated text; what is here is what is checked.)
+package evmlane
+
+//@ import sdk "github.com/cosmos/cosmos-sdk/types"
+
+// 03e: EVM-lane only. Cosmos lane: straight to the continuation, nothing touched. Ethereum lane: continues only for a
+// non-empty sender address whose account has no contract code (an externally owned account).
+//@ func (ead ELValidateBasicEoaDecorator) AnteHandle(ctx sdk.Context, tx sdk.Tx, simulate bool, next sdk.AnteHandler) (newCtx sdk.Context, err error)
+//@   modifies everything
+//@   ensures[C07.cosmos_passes] !single(payload(tx)) ==> (hcN[0] == old(hcN[0]) + 1 && hcKind[old(hcN[0])] == 0 && hcCallee[old(hcN[0])] == next && hcCtx[old(hcN[0])] == ctx && hcTxTag[old(hcN[0])] == typeof(tx) && hcTx[old(hcN[0])] == payload(tx) && hcSim[old(hcN[0])] == simulate && newCtx == hcResCtx[old(hcN[0])] && typeof(err) == hcResErrTag[old(hcN[0])] && payload(err) == hcResErr[old(hcN[0])] && hcSawFlagNonce[old(hcN[0])] == old(trFlagNonce[layer(ctx)]) && hcSawFlagPaid[old(hcN[0])] == old(trFlagPaid[layer(ctx)]) && hcSawSeq[old(hcN[0])] == old(acctSeq[layer(ctx)]))
+//@   ensures[C07.eth_next_or_reject] single(payload(tx)) ==> ((hcN[0] == old(hcN[0]) + 1 && hcKind[old(hcN[0])] == 0 && hcCallee[old(hcN[0])] == next && hcCtx[old(hcN[0])] == ctx && hcTxTag[old(hcN[0])] == typeof(tx) && hcTx[old(hcN[0])] == payload(tx) && hcSim[old(hcN[0])] == simulate && newCtx == hcResCtx[old(hcN[0])] && typeof(err) == hcResErrTag[old(hcN[0])] && payload(err) == hcResErr[old(hcN[0])] && hcSawFlagNonce[old(hcN[0])] == old(trFlagNonce[layer(ctx)]) && hcSawFlagPaid[old(hcN[0])] == old(trFlagPaid[layer(ctx)]) && hcSawSeq[old(hcN[0])] == old(acctSeq[layer(ctx)])) || (hcN[0] == old(hcN[0]) && err != nil && newCtx == ctx))
+//@   ensures[C06.sender_is_eoa] (single(payload(tx)) && hcN[0] == old(hcN[0]) + 1) ==> old(isEmptyCodeHash(evmCodeHash[layer(ctx)][bech32Bytes(ethMsgOf(payload(tx)).From)]))
+
+// 991e: EVM-lane only. Cosmos lane: straight to the continuation with the same context. (The Ethereum-lane half is
+// Keeper.SetupExecutionContext, which belongs to the x/evm keeper contracts (C05/C13) and is not summarised here.)
+//@ func (sed ELSetupExecutionDecorator) AnteHandle(ctx sdk.Context, tx sdk.Tx, simulate bool, next sdk.AnteHandler) (newCtx sdk.Context, err error)
+//@   modifies everything
+//@   ensures[C07.cosmos_passes] !single(payload(tx)) ==> (hcN[0] == old(hcN[0]) + 1 && hcKind[old(hcN[0])] == 0 && hcCallee[old(hcN[0])] == next && hcCtx[old(hcN[0])] == ctx && hcTxTag[old(hcN[0])] == typeof(tx) && hcTx[old(hcN[0])] == payload(tx) && hcSim[old(hcN[0])] == simulate && newCtx == hcResCtx[old(hcN[0])] && typeof(err) == hcResErrTag[old(hcN[0])] && payload(err) == hcResErr[old(hcN[0])] && hcSawFlagNonce[old(hcN[0])] == old(trFlagNonce[layer(ctx)]) && hcSawFlagPaid[old(hcN[0])] == old(trFlagPaid[layer(ctx)]) && hcSawSeq[old(hcN[0])] == old(acctSeq[layer(ctx)]))
+
+// 992e: EVM-lane only. Cosmos lane: straight to the continuation, no event.
+//@ func (eed ELEmitEventDecorator) AnteHandle(ctx sdk.Context, tx sdk.Tx, simulate bool, next sdk.AnteHandler) (newCtx sdk.Context, err error)
+//@   modifies everything
+//@   ensures[C07.cosmos_passes] !single(payload(tx)) ==> (hcN[0] == old(hcN[0]) + 1 && hcKind[old(hcN[0])] == 0 && hcCallee[old(hcN[0])] == next && hcCtx[old(hcN[0])] == ctx && hcTxTag[old(hcN[0])] == typeof(tx) && hcTx[old(hcN[0])] == payload(tx) && hcSim[old(hcN[0])] == simulate && newCtx == hcResCtx[old(hcN[0])] && typeof(err) == hcResErrTag[old(hcN[0])] && payload(err) == hcResErr[old(hcN[0])] && hcSawFlagNonce[old(hcN[0])] == old(trFlagNonce[layer(ctx)]) && hcSawFlagPaid[old(hcN[0])] == old(trFlagPaid[layer(ctx)]) && hcSawSeq[old(hcN[0])] == old(acctSeq[layer(ctx)]))
+//@   ensures[C07.eth_continues] single(payload(tx)) ==> (hcN[0] == old(hcN[0]) + 1 && hcKind[old(hcN[0])] == 0 && hcCallee[old(hcN[0])] == next && hcCtx[old(hcN[0])] == ctx && hcTxTag[old(hcN[0])] == typeof(tx) && hcTx[old(hcN[0])] == payload(tx) && hcSim[old(hcN[0])] == simulate && newCtx == hcResCtx[old(hcN[0])] && typeof(err) == hcResErrTag[old(hcN[0])] && payload(err) == hcResErr[old(hcN[0])] && hcSawFlagNonce[old(hcN[0])] == old(trFlagNonce[layer(ctx)]) && hcSawFlagPaid[old(hcN[0])] == old(trFlagPaid[layer(ctx)]) && hcSawSeq[old(hcN[0])] == old(acctSeq[layer(ctx)]))
+
+// 993e (ELExecWithoutErrorDecorator) is NOT under contract here: `&ed.ek` (an interior pointer) is converted to the EvmKeeper
+// interface for NewStateDB, which the verifier's memory model does not support, and the trial execution needs the state
+// transition preconditions of x/evm/keeper (C08 territory). Its lane guard is the same two lines as in the decorators above.
